@@ -3,6 +3,8 @@ package props
 import (
 	"context"
 	"fmt"
+	"io"
+	"log/slog"
 	"os"
 	"strings"
 	"sync"
@@ -11,6 +13,7 @@ import (
 
 	"go.uber.org/goleak"
 
+	"github.com/form3tech-oss/f1/v2/pkg/f1"
 	f1testing "github.com/form3tech-oss/f1/v2/pkg/f1/testing"
 	"github.com/form3tech-oss/f1/v2/verifharness/core"
 	"github.com/form3tech-oss/f1/v2/verifharness/engine"
@@ -285,7 +288,7 @@ func init() {
 			// a config file restarted in the middle of its plan (stage-start in the past): the skipped stage still counts
 			// in the trigger's total, so triggering ends by itself before that deadline; with an iteration that never
 			// finishes the run still returns after the completion timeout
-			for i := 0; i < 2; i++ {
+			for i := 0; i < map[string]int{"quick": 1, "thorough": 2}[tier]; i++ { // (20 s each)
 				c := pick(r, 1, 2)
 				st := "- duration: 2s\n  mode: constant\n  rate: 1/20ms\n- duration: 400ms\n  mode: constant\n  rate: 1/20ms\n"
 				y := c05FileYAML(c, "20s", 0, st) + fmt.Sprintf("schedule:\n  stage-start: %s\n", time.Now().Add(-2500*time.Millisecond).UTC().Format(time.RFC3339Nano))
@@ -402,9 +405,16 @@ func init() {
 					cs = append(cs, cse)
 				}
 			}
+			// the real command line in file mode: limits.max-duration caps a plan whose stages add up to far more
+			for i := 0; i < map[string]int{"quick": 2, "thorough": 6}[tier]; i++ {
+				cse := core.MkCase("C05", "cli", i, seed, map[string]int{"max_ms": 300 + 150*i, "stage_s": 8, "users": i % 2})
+				cse.Solo = true
+				cse.TimeoutMS = 60000
+				cs = append(cs, cse)
+			}
 			return cs
 		},
-		Kinds:  map[string]core.RunFunc{"run": c05Run, "script": c05Script},
+		Kinds:  map[string]core.RunFunc{"run": c05Run, "script": c05Script, "cli": c05CLI},
 		Floors: map[string]int64{"runs_returned": 60, "deadlines_checked": 30, "stopped_with_inflight": 10, "completion_timeouts_observed": 5, "goleak_checks": 60, "scripts_formed": 3},
 		HangViolation: func(c *core.Case, dump string) (bool, string, string) {
 			if strings.Contains(dump, "run.(*Run).Do") {
@@ -997,4 +1007,64 @@ func c05Script(c *core.Case, o *core.Outcome) {
 	o.AddObs("scripts_formed", 1)
 	o.Sig("script:%s:mode=%s", p.Script, p.Spec.Mode)
 	o.Sample = map[string]any{"script": p.Desc, "events": l.Len(), "iterations": started.Load()}
+}
+
+// c05CLI: `run file <plan>` on the real command line; the plan's limits.max-duration (300-1000 ms) is far shorter than its
+// single stage (8 s). Triggering stops at max-duration: an iteration that starts more than 3 s after it (by the bodies'
+// own clock, counted from the first body) can only be one that a stopped run still requested; and the command returns.
+func c05CLI(c *core.Case, o *core.Outcome) {
+	var pp map[string]int
+	c.Params(&pp)
+	st := fmt.Sprintf("- duration: %ds\n  mode: constant\n  rate: 2/20ms\n", pp["stage_s"])
+	if pp["users"] == 1 {
+		st = fmt.Sprintf("- duration: %ds\n  mode: users\n", pp["stage_s"])
+	}
+	y := strings.Replace(c05FileYAML(2, fmt.Sprintf("%dms", pp["max_ms"]), 0, st), "scenario: verifScenario", "scenario: cliPlan", 1)
+	path, err := engine.TempYAML(y)
+	if err != nil {
+		o.Inconc("cannot write the plan: %v", err)
+		return
+	}
+	defer os.Remove(path)
+	var first, last atomic.Int64
+	var n atomic.Int64
+	base := time.Now()
+	scenario := func(*f1testing.T) f1testing.RunFn {
+		return func(*f1testing.T) {
+			now := int64(time.Since(base)) + 1
+			first.CompareAndSwap(0, now)
+			last.Store(now)
+			n.Add(1)
+			time.Sleep(5 * time.Millisecond)
+		}
+	}
+	quiet := slog.New(slog.NewTextHandler(io.Discard, nil))
+	done := make(chan error, 1)
+	go func() {
+		done <- f1.New().WithLogger(quiet).Add("cliPlan", scenario).ExecuteWithArgs([]string{"run", "file", path})
+	}()
+	desc := fmt.Sprintf("run file <limits.max-duration %d ms, one %s stage of %d s>", pp["max_ms"], map[int]string{0: "constant", 1: "users"}[pp["users"]], pp["stage_s"])
+	select {
+	case rerr := <-done:
+		if rerr != nil {
+			o.Inconc("the run returned %v (%s)", rerr, desc)
+			return
+		}
+	case <-time.After(40 * time.Second):
+		o.Violate("cli-never-returns:"+desc, "the command had not returned after 40 s (%s)", desc)
+		return
+	}
+	o.Events = n.Load()
+	if n.Load() == 0 {
+		o.Inconc("no iteration ran (%s)", desc)
+		return
+	}
+	span := time.Duration(last.Load() - first.Load())
+	if span > time.Duration(pp["max_ms"])*time.Millisecond+3*time.Second {
+		o.Violate("cli-max-duration:"+desc, "the last of %d iterations started %v after the first one: the plan's max-duration of %d ms did not stop the run from requesting iterations (%s)", n.Load(), span, pp["max_ms"], desc)
+		return
+	}
+	o.AddObs("runs_returned", 1)
+	o.Sig("cli:file:users=%d", pp["users"])
+	o.Sample = map[string]any{"case": desc, "iterations": n.Load(), "first_to_last_start": span.String()}
 }
